@@ -17,10 +17,10 @@ import (
 	"io"
 	"os"
 	"os/exec"
-	"runtime"
 	"strings"
 	"sync"
 	"sync/atomic"
+	"time"
 
 	"github.com/gauss-project/aurorafs/pkg/boson"
 	"github.com/gauss-project/aurorafs/pkg/topology/pslice"
@@ -293,6 +293,7 @@ type childIn struct {
 type childOut struct {
 	Bins  [][]string `json:"bins"` // BinPeers per bin after both goroutines finished
 	Iters int        `json:"iters"`
+	Panic string     `json:"panic,omitempty"`
 }
 
 // concServer is the child process (this binary, sub-command conc-child) that runs the
@@ -421,6 +422,10 @@ func concurrent(ev kit.Ev, w *world, s *pslice.PSlice, mb int, dir string, upd [
 	ev["detector"] = raceDetector
 	ev["race"] = raced
 	ev["iters"] = res.Iters
+	if res.Panic != "" {
+		ev["panicked"] = true
+		ev["panic"] = res.Panic
+	}
 	// continue the scenario on a slice holding what the child ended with
 	ns := pslice.New(mb, boson.NewAddress(w.base))
 	for _, bin := range res.Bins {
@@ -508,11 +513,26 @@ func childOne(in childIn) (out childOut, err error) {
 	var wg sync.WaitGroup
 	start := make(chan struct{})
 	wg.Add(2)
+	var pmu sync.Mutex
+	guard := func() {
+		if r := recover(); r != nil {
+			pmu.Lock()
+			out.Panic = fmt.Sprint(r)
+			pmu.Unlock()
+			atomic.StoreInt32(&done, 1)
+		}
+	}
 	go func() { // reader: iterations and queries, free-running
 		defer wg.Done()
+		defer guard()
 		<-start
 		for last := false; ; {
-			cb := func(a boson.Address, po uint8) (bool, bool, error) { _ = a.Bytes()[0]; return false, false, nil }
+			// the callback lingers (no synchronisation in it): updates land between two reads of one bin snapshot
+			cb := func(a boson.Address, po uint8) (bool, bool, error) {
+				_ = a.Bytes()[0]
+				time.Sleep(20 * time.Microsecond)
+				return false, false, nil
+			}
 			if in.Dir == "deep" {
 				_ = s.EachBin(cb)
 			} else {
@@ -538,6 +558,7 @@ func childOne(in childIn) (out childOut, err error) {
 	}()
 	go func() { // writer: the updates, over and over
 		defer wg.Done()
+		defer guard()
 		<-start
 		for r := 0; r < in.Rounds; r++ {
 			for _, u := range ups {
@@ -546,9 +567,7 @@ func childOne(in childIn) (out childOut, err error) {
 				} else {
 					s.Remove(u.a)
 				}
-			}
-			if r%8 == 0 {
-				runtime.Gosched()
+				time.Sleep(5 * time.Microsecond)
 			}
 		}
 		atomic.StoreInt32(&done, 1)
